@@ -231,11 +231,64 @@ def run_diff(ctx, nprog, budget):
     return compared, [(gen.render_file(b['prog']), json.dumps(b['docs'][0])) for b in base]
 
 
+def run_text_orders(ctx):
+    """or-lines written in the concrete syntax with every kind of alternative a rule body accepts - short-form type blocks
+    (`AWS::X::Y Properties.k >= 1`, no braces), braced type blocks, when blocks, query blocks, named rules, plain clauses - in
+    every order: the parser must not let one alternative swallow the next, so the status of the rule cannot depend on the order"""
+    import itertools
+    alts = {'tb_short': 'AWS::S3::Bucket Properties.Size >= 10', 'tb_short2': 'AWS::SQS::Queue Properties.Delay exists',
+            'tb_braced': 'AWS::S3::Bucket {\n    Properties.Name exists\n  }', 'clause_root': 'Mode == "strict"',
+            'clause_root2': 'Limit >= 3', 'when_blk': 'when Mode exists {\n    Kind == "x"\n  }',
+            'qblock': 'Resources.*.Properties {\n    Size exists\n  }', 'named': 'other', 'not_named': 'not other',
+            'tb_when': 'AWS::S3::Bucket when Properties.Size exists {\n    Properties.Size < 100\n  }'}
+    docs = [{'Mode': 'strict', 'Limit': 1, 'Kind': 'x', 'Resources': {'b': {'Type': 'AWS::S3::Bucket', 'Properties': {'Size': 5}}, 'q': {'Type': 'AWS::SQS::Queue', 'Properties': {'Size': 1}}}},
+            {'Mode': 'lax', 'Limit': 5, 'Kind': 'y', 'Resources': {'b': {'Type': 'AWS::S3::Bucket', 'Properties': {'Size': 50, 'Name': 'n', 'Mode': 'strict', 'Limit': 9}}}},
+            {'Limit': 3, 'Resources': {'q': {'Type': 'AWS::SQS::Queue', 'Properties': {'Delay': 0, 'Mode': 'strict'}}}},
+            {'Mode': 'strict', 'Resources': {}}]
+    names = sorted(alts)
+    groups = [c for c in itertools.combinations(names, 2)]
+    if ctx.tier == 'thorough':
+        groups += [c for c in itertools.combinations(names, 3)]
+    else:
+        tri = [c for c in itertools.combinations(names, 3) if any(x.startswith('tb_short') for x in c)]
+        groups += [c for i, c in enumerate(tri) if i % 3 == ctx.seed % 3]
+    pairs, meta = [], []
+    for g in groups:
+        for perm in itertools.permutations(g):
+            text = 'rule other {\n  Kind == "x"\n}\nrule t {\n  ' + ' or\n  '.join(alts[a] for a in perm) + '\n}\n'
+            text2 = 'rule other {\n  Kind == "x"\n}\nrule t {\n  Limit exists\n  ' + ' or\n  '.join(alts[a] for a in perm) + '\n  Resources exists\n}\n'
+            for di, d in enumerate(docs):
+                pairs.append((text, json.dumps(d))); meta.append((g, perm, di, 'alone'))
+                pairs.append((text2, json.dumps(d))); meta.append((g, perm, di, 'between lines'))
+    outs, raw = e2e.pair_outcomes(pairs, ctx.wd, 'c04text', loader='cli')
+    seen = {}
+    n = 0
+    for (g, perm, di, where), o, r, (text, data) in zip(meta, outs, raw, pairs):
+        o1, s1 = statuses(o, r)
+        if o1 in ('PANIC', 'ABORT'):
+            continue
+        st = (o1, tuple(sorted((k, tuple(sorted(v))) for k, v in (s1 or {}).items())))
+        key = (g, di, where)
+        if key in seen:
+            n += 1
+            perm0, st0, text0 = seen[key]
+            if st0 != st and s1 is not None and st0[1]:
+                ctx.failing('alternatives %s written in the order %s: %s; in the order %s: %s (%s)' % (list(g), list(perm0), st0, list(perm), st, where),
+                            {'class': 'order', 'transformation': 'alternatives of an or-line permuted (concrete syntax)', 'rules': text0, 'variant': text, 'data': data}, found=True)
+        else:
+            seen[key] = (perm, st, text)
+    ctx.coverage['text_order_groups'] = len(groups)
+    ctx.coverage['text_order_comparisons'] = n
+    ctx.coverage['evaluations'] += len(pairs)
+    return n
+
+
 def run(ctx):
     ctx.build()
     pr = ctx.proofs('C04')
     thorough = ctx.tier == 'thorough'
     n, originals = run_diff(ctx, 400 if thorough else 60, 40 if thorough else 16)
+    n += run_text_orders(ctx)
     # the model evaluator agrees with the implementation on the originals (status, error kind, record tree)
     out, errs = corr.run([{'rules': r, 'data': d} for r, d in originals[:300]], ctx.wd, 'c04corr', loader='cli')
     if errs:
